@@ -182,3 +182,54 @@ func vpFarmStep(unfarm bool) {
 
 func VP_C04_Farm()   { vpFarmStep(false) }
 func VP_C04_Unfarm() { vpFarmStep(true) }
+
+// End-of-batch step that moves matured queued pool coins to the farmer's active record: the farmer's recorded total for
+// THIS pool (queued + active) is unchanged by it, and no other pool's record is touched - so "module account holds
+// exactly the recorded farmed coins per pool" is kept. Closed world: one app, one pool whose id may differ from its pair
+// id, one farmer with 0..2 queued entries of any age, possibly an active record in this pool and possibly one in the
+// pool that has this pool's PAIR id as its id. Gauge lookup and minimum epoch duration are contract stubs.
+func VP_C04_MaturingKeepsTheFarmersTotalPerPool() {
+	zzvp.Stub("(github.com/comdex-official/comdex/x/liquidity/keeper.Keeper).GetMinimumEpochDurationFromPoolID")
+	zzvp.Stub("(github.com/comdex-official/comdex/x/rewards/keeper.Keeper).GetAllGaugesByGaugeTypeID")
+	var k Keeper
+	zzvp.Wire(&k)
+	ctx := zzvp.ClosedCtx()
+	const app = 1
+	var pool types.Pool
+	zzvp.AnyOf(&pool)
+	pool.AppId = app
+	zzvp.Assume(pool.Id >= 1 && pool.PairId >= 1)
+	k.SetPool(ctx, pool)
+	bech := zzvp.AnyString()
+	farmer := vpUser(bech)
+	q := types.NewQueuedfarmer(app, pool.Id, farmer)
+	n := zzvp.Choose(3)
+	before := sdkmath.ZeroInt()
+	for i := 0; i < n; i++ {
+		a := zzvp.AnySdkInt()
+		zzvp.Assume(a.IsPositive() && a.LTE(sdkmath.NewIntWithDecimal(1, 40)))
+		q.QueudCoins = append(q.QueudCoins, &types.QueuedCoin{FarmedPoolCoin: sdk.Coin{Denom: pool.PoolCoinDenom, Amount: a}, CreatedAt: zzvp.AnyTime()})
+		before = before.Add(a)
+	}
+	k.SetQueuedFarmer(ctx, q)
+	if zzvp.AnyBool() {
+		a := zzvp.AnySdkInt()
+		zzvp.Assume(a.IsPositive() && a.LTE(sdkmath.NewIntWithDecimal(1, 40)))
+		k.SetActiveFarmer(ctx, types.ActiveFarmer{AppId: app, PoolId: pool.Id, Farmer: bech, FarmedPoolCoin: sdk.Coin{Denom: pool.PoolCoinDenom, Amount: a}})
+		before = before.Add(a)
+	}
+	// a record of the same farmer in the pool whose id is this pool's pair id (another pool of the app)
+	other := zzvp.AnySdkInt()
+	hasOther := zzvp.AnyBool()
+	if hasOther {
+		zzvp.Assume(pool.PairId != pool.Id && other.IsPositive() && other.LTE(sdkmath.NewIntWithDecimal(1, 40)))
+		k.SetActiveFarmer(ctx, types.ActiveFarmer{AppId: app, PoolId: pool.PairId, Farmer: bech, FarmedPoolCoin: sdk.Coin{Denom: "otherpoolcoin", Amount: other}})
+	}
+	k.ProcessQueuedFarmers(ctx, app)
+	zzvp.Reach("maturing-step-done")
+	zzvp.Assert(vpFarmedNow(k, ctx, app, pool.Id, farmer).Equal(before), "farmers-recorded-total-for-this-pool-unchanged")
+	if hasOther {
+		o, found := k.GetActiveFarmer(ctx, app, pool.PairId, farmer)
+		zzvp.Assert(zzvp.And(found, o.FarmedPoolCoin.Amount.Equal(other), o.FarmedPoolCoin.Denom == "otherpoolcoin"), "other-pools-record-untouched")
+	}
+}
